@@ -1,5 +1,5 @@
 """C05 — total and robust on boundary and degenerate inputs: the exact-arithmetic boundary (claimed part)."""
-from . import grid, e3sets, clipwire
+from . import grid, e3sets, clipwire, halfspace
 from .. import smt, runner, kani
 from .c10 import A_ROUND
 
@@ -8,6 +8,8 @@ def run(tier, seed):
     obs, units, extra = grid.e2_obligations("C05", parts=("iloc_real", "right_loc"))
     fns = [{"fn": u.label, "slice_sha": u.sha} for u in units]
     o2, f2 = clipwire.obligations("C05"); obs += o2; fns += f2
+    for f in (halfspace.new_obligations, halfspace.clip_obligations):
+        o3, u3 = f("C05"); obs += o3; fns += [{"fn": u.label, "slice_sha": u.sha} for u in u3]
     smt.discharge_all(obs, tier)
     results = [runner.from_smt(o) for o in obs]
     results += grid.kani_results("C05", tier)
@@ -19,7 +21,8 @@ def run(tier, seed):
                         "E3 iloc windows as in C10; HalfSpace contracts: |n_i| <= 4, |p_i|, |v_i| <= 1e150 (complete over all bit patterns in range)",
                         "in the wiring slice the callees (HalfSpace::clip, right_loc, iloc, in_sphere_test_exact) are replaced by their contracts: answers in {-1,0,+1}",
                         "NOT decided: absence of the three panic sites (det != 0 in intersect_planes, 'No suitable vertex', NaN in max_by) for all valid inputs; termination of "
-                        "build (finiteness of the neighbour iterator); that errb bounds the rounding error of n.v - d (needs a floating-point error analysis); "
+                        "build (finiteness of the neighbour iterator); that errb bounds the rounding error of n.v - d for every vertex v (errb does not depend on v; only the "
+                        "necessary part is proved: errb dominates gamma_3 * sum|n_i p_i|, the rounding error of the offset d = n.p itself); "
                         "'returns finite values that satisfy C01-C04' (composed float algorithm)"],
         "trusted_base": ["vx (syn 2 dump)", "vlib/symex.py", "z3 4.8.12 / z3 5.1 / cvc5 1.0", "Kani 0.68 / CBMC 6.11 IEEE-754 model, CaDiCaL"],
         "extra_cov": extra,
